@@ -542,6 +542,12 @@ def run(prop, tier, replay=None):
                 for sig, det in ds:
                     verdict.add(sig, det)
         print("contract extraction: %s" % json.dumps(contract))
+    if prop == "C07" and not replay:
+        # 6. the threshold at its use sites in the node ("a VAA the node considers complete ... and an incomplete one is
+        #    not"): inbound signed VAAs and the node's own publication decision, set sizes 1..19, decided by
+        #    Trace_Processor on the real handlers
+        import chk_processor
+        extra_cov["node_use_sites"] = chk_processor.quorum_use_sites(work, tier, vlib.seed(), verdict)
 
     sigc = Counter(sg for sg, _ in verdict.items)
     if sigc:
